@@ -141,6 +141,8 @@ def run(ctx):
     ctx.rule("R09.i", "rx cache model: rx._resolve, the rx._obj property, _invalidate_current and _invalidate_obj interpreted abstractly on a three-node expression (root, op1, op2) under every "
                       "history of up to 3 (thorough: 4) steps of read leaf / read middle node / set the input to A, B or a bad value / set an operation argument to P, Q or a bad value, followed by a read: the read gives op2(op1(current input, current argument)), "
                       "raises for the bad input, and recovers", floor=1)
+    ctx.rule("R09.s", "a watch callback sees the current value: the callbacks of the function form of depends (under .rx.watch and bind(..., watch=True)) read their dependencies with "
+                      "getattr(dep.owner, dep.name) when they run and never take a value from the announcing event", floor=1)
     ctx.rule("R09.o", "rx evaluation-order model: rx._resolve evaluates the pipeline before the arguments of the operation -- with both invalid, reading the node raises the exception the plain "
                       "left-to-right expression raises (the pipeline's)", floor=1)
     ctx.rule("R09.r", "flush model (shared with R04.h): every watcher queued in a batch -- the cache invalidators of an expression are such watchers -- runs at the flush with the last event of its "
@@ -372,6 +374,7 @@ def run(ctx):
     rx_model.report(ctx, "R09.i")
     rx_model.value_setter_model(ctx, "R09.v")
     rx_model.evaluation_order_model(ctx, "R09.o")
+    callbacks_read_current_values(ctx, "R09.s")
     from checks.shared import full_groupby_model
     full_groupby_model(ctx, "R09.q")
     from checks.shared import rx_attribute_resolution_is_per_object
@@ -382,3 +385,22 @@ def run(ctx):
     update_model.report(ctx, "C09", "R09.u")
     from checks.shared import flush_model
     flush_model(ctx, "R09.r")
+
+
+def callbacks_read_current_values(ctx, rule):
+    """The function form of `param.depends(..., watch=True)` -- which `.rx.watch(fn)` and `bind(fn, ..., watch=True)` are built
+    on -- calls the function with the values its dependencies hold WHEN THE CALLBACK RUNS: the callbacks read
+    `getattr(dep.owner, dep.name)`.  A value taken from the announcing event (`event.new`) is the value of the moment
+    the event was created: when an earlier watcher of the same dispatch assigned the parameter again (a clamping
+    callback), the callbacks still pending for the old event would hand their function the superseded value."""
+    f = ctx.repo.func("param.depends.depends")
+    nested = [n for n in ast.walk(f.node) if isinstance(n, (ast.FunctionDef, ast.AsyncFunctionDef)) and n is not f.node]
+    reads = [a for n in nested for a in ast.walk(n) if isinstance(a, ast.Attribute) and a.attr in ("new", "old") and isinstance(a.ctx, ast.Load)]
+    getters = [c for n in nested for c in ast.walk(n) if isinstance(c, ast.Call) and norm(c.func) == "getattr" and len(c.args) >= 2 and norm(c.args[0]).endswith(".owner")]
+    ctx.require(getters, "the callbacks of the function form of depends no longer read their dependencies with getattr(dep.owner, dep.name)")
+    if reads:
+        ctx.fail(rule, f, reads[0], "a callback of the function form of depends takes a dependency's value from the event (`%s`) instead of reading the parameter when it runs: a `.rx.watch` / "
+                                    "bind(..., watch=True) callback ordered after a watcher that re-assigns the parameter is called with the superseded value" % norm(reads[0]),
+                 key=f.qualname + "::value-from-event", input="p.param.level.rx.watch(cb) next to a watcher that clamps level: cb(20) while p.level == 10")
+    else:
+        ctx.ok(rule, f, getters[0], "the function-form callbacks read every dependency from its owner when they run (%d reads), never from the event" % len(getters))
